@@ -136,8 +136,12 @@ def run(ck):
         nonempty = max(sum(1 for l in sup.chemorder if l) for sup in sd["states"].values())
         stats["max_nonempty_species"] = max(stats["max_nonempty_species"], nonempty)
         if nonempty >= 3: stats["archives_with_3plus_species"] += 1
-        job = check_archive(ck, automator, violation, stats, sd, spec, label, scratch, rng)
-        if job: jobs.append(job)
+        # default layout; the fixed cases also with the archive placed under a base directory (the Makefile then sits in it)
+        extra = (["run1"] if fixed else (["calc/sub/"] if rng.random() < 0.3 else []))
+        if ck.quick and (not fixed or stats["archives_with_basedir"] >= 2): extra = []      # quick: two base-directory archives per run
+        for bd in [""] + extra:
+            job = check_archive(ck, automator, violation, stats, sd, spec, label, scratch, rng, basedir=bd)
+            if job: jobs.append(job)
         return True
 
     def A(*x): return np.array(x, dtype=float)
@@ -157,6 +161,7 @@ def run(ck):
                   ("interstitial", "B2 host + interstitial sublattice", b2i, 2, np.diag([2, 3, 2]))]
     stats["max_nonempty_species"] = 0
     stats["archives_with_3plus_species"] = 0
+    stats["archives_with_basedir"] = 0
     try:
         for kind, label, crys, chem, m in fixed:
             do_case(kind, label, crys, chem, m, fixed=True)
@@ -197,18 +202,28 @@ def run(ck):
     flush()
 
 
-def check_archive(ck, automator, violation, stats, sd, spec, label, scratch, rng):
+def check_archive(ck, automator, violation, stats, sd, spec, label, scratch, rng, basedir=""):
+    """everything below works with names RELATIVE to the directory that holds the Makefile (= basedir inside the archive):
+    that is where make is run and where the Makefile's paths are resolved"""
+    if basedir:
+        spec = dict(spec, basedir=basedir); label = "%s [basedir=%r]" % (label, basedir)
+        stats["archives_with_basedir"] += 1
     rep0 = dict(cfg=spec)
     buf = io.BytesIO()
     try:
         with tarfile.open(fileobj=buf, mode="w") as tar:
-            automator.supercelltar(tar, sd)
+            automator.supercelltar(tar, sd, basedir=basedir) if basedir else automator.supercelltar(tar, sd)
     except Exception as e:
         violation("c30-exception", "%s: supercelltar raised %r" % (label, e), dict(rep0, exception=repr(e)))
         return None
     buf.seek(0)
     tar = tarfile.open(fileobj=buf)
-    members = {m.name: m for m in tar.getmembers()}
+    prefix = (basedir.rstrip("/") + "/") if basedir else ""
+    allmembers = {m.name: m for m in tar.getmembers()}
+    outside = sorted(n for n in allmembers if not n.startswith(prefix))
+    if outside:
+        violation("c30-basedir", "%s: archive members outside basedir: %s" % (label, outside[:5]), dict(rep0, members=outside[:20]))
+    members = {n[len(prefix):]: m for n, m in allmembers.items() if n.startswith(prefix)}
     stats["members"] += len(members)
 
     def text(name):
@@ -402,10 +417,10 @@ def replay(ck, path):
         warnings.simplefilter("ignore")
         sd = d.makesupercells(np.array(c["supercell"], dtype=int))
     found = {}
-    stats = dict(archives=0, members=0, structure_files=0, trans_files=0, perl_runs=0, make_runs=0, rules=0, tags=0)
+    stats = dict(archives=0, members=0, structure_files=0, trans_files=0, perl_runs=0, make_runs=0, rules=0, tags=0, archives_with_basedir=0)
     scratch = tempfile.mkdtemp(prefix="c30_")
     try:
-        check_archive(ck, automator, lambda k, m, rep: found.setdefault(k, m), stats, sd, c, c["label"], scratch, ck.rng)
+        check_archive(ck, automator, lambda k, m, rep: found.setdefault(k, m), stats, sd, {k_: v_ for k_, v_ in c.items() if k_ != "basedir"}, c["label"], scratch, ck.rng, basedir=c.get("basedir", ""))
     finally:
         shutil.rmtree(scratch, ignore_errors=True)
     for k, m in found.items(): print("VIOLATION reproduced [%s]: %s" % (k, m))
